@@ -668,6 +668,19 @@ def f_lazy_streams():
     return first, second, next(sq), next(sq), list(_it.islice(_it.count(10, 5), 3)), a, rest, again, next(m), list(m), next(iter([]), 'dflt'), next((x for x in _it.count() if x * x > 50))
 
 
+class _Bag:
+    def __init__(self, kind, **kw):
+        self.kind = kind
+        for k, v in kw.items():
+            setattr(self, k, v)
+
+
+def f_vars_order():
+    a = _Bag('x', after=1, body=2)
+    b = _Bag('x', body=2, after=1)
+    return list(vars(a)), list(vars(b).values()), list(a.__dict__.items()), vars(b)['body'], 'kind' in vars(a), len(vars(a))
+
+
 def f_str_bits():
     s = bin(0b101101)[2:]
     return s, s.zfill(8), int(s[::-1], 2), s.count('1'), s.rfind('1'), s[:3] + '0' * 2, '{:08b}'.format(5), f'{5:08b}'[-3:], ''.join('1' if c == '0' else '0' for c in s)
